@@ -1,0 +1,16 @@
+//go:build !verif
+
+package eval
+
+// Empty stubs of the verification hooks; see trace_verif.go (build tag
+// "verif"). They are inlined away in a normal build.
+
+func VerifTrace(fm *Frame, label string, args ...any) {}
+
+func VerifTraceLock() {}
+
+func VerifTraceUnlock(fm *Frame, label string, args ...any) {}
+
+func VerifTraceID() int64 { return 0 }
+
+func verifTrace(label string, args ...any) {}
